@@ -10,4 +10,4 @@ Extraction "../extract/gen/asm.ml"
   Z.add Z.mul Z.sub Z.opp Z.div Z.modulo Z.pow Z.ltb Z.eqb Z.of_N Z.to_N N.add N.mul Z.of_nat Z.to_nat
   all_mnemonics all_binops
   codegen default_options segment_image vice_symbols all emit_instruction eval emit_data env_of lookup_in
-  try_index query z_to_text.
+  try_index query z_to_text max_iterations.
